@@ -26,12 +26,15 @@ def model_line(sc):
 
 
 def expand_controls(sc):
-    """shutdown_then [k, kind2, arg2] is, for the model, shutdown followed by kind2 at the same tick."""
+    """shutdown_then / close_then [k, kind2, arg2] is, for the model, shutdown / close followed by kind2 at the same tick."""
     out = []
     for t, k, a in sorted(sc.get("controls", []), key=lambda c: c[0]):
-        if k == "shutdown_then":
-            out.append([t, "shutdown", 0])
+        if k in ("shutdown_then", "close_then"):
+            out.append([t, k.split("_")[0], 0])
             out.append([t, a[1], a[2]])
+        elif k == "pair":
+            out.append([t, a[1], a[2]])
+            out.append([t, a[3], a[4]])
         else:
             out.append([t, k, a])
     return out
@@ -185,6 +188,34 @@ def gen_shutdown_overlap():
     return out
 
 
+def gen_same_tick_pairs():
+    """Two events inside one tick, the second k event-loop iterations after the first, in four connector phases
+    (inside connection_made(True), connected and idle, back-off sleep, dial hanging), followed by re-use of the
+    pairing.  Covers e.g. the connection in use being lost while close() is suspended in _stop_connector, and
+    close() arriving before an already scheduled connection_lost has run.  The relative order of the two events'
+    effects is up to the scheduler, so these scenarios are judged by the property oracles only (oracle_only)."""
+    phases = {
+        "post": dict(subs=True, dials=[["connect", 0]] * 6, verifies=[["ok", 5000]] + [["ok", 0]] * 5, t=1001, cid=1),
+        "idle": dict(subs=False, dials=[["connect", 0]] * 6, verifies=[["ok", 0]] * 6, t=10001, cid=1),
+        "sleep": dict(subs=False, dials=[["refused"]] + [["connect", 0]] * 6, verifies=[["ok", 0]] * 6, t=1001, cid=1),
+        "dial": dict(subs=False, dials=[["hang"]] + [["connect", 0]] * 6, verifies=[["ok", 0]] * 6, t=1001, cid=1),
+    }
+    evs = [("close", 0), ("shutdown", 0), ("drop", 1), ("dropreset", 1), ("ensure", 7), ("soon", 0), ("zeroconf", [0])]
+    out = []
+    for name, ph in phases.items():
+        for a in evs:
+            for b in evs:
+                if a == b or not ({a[0], b[0]} & {"close", "shutdown", "drop", "dropreset"}):
+                    continue
+                for k in (0, 1, 2, 3):
+                    t = ph["t"]
+                    out.append(dict(hosts=1, subs=ph["subs"], dials=ph["dials"], verifies=ph["verifies"],
+                                    controls=[[1, "ensure", 1], [t, "pair", [k, a[0], a[1], b[0], b[1]]],
+                                              [t + 30000, "ensure", 8], [t + 50000, "ensure", 9], [t + 70000, "close", 0]],
+                                    end=t + 90000, tag="pairs/" + name, oracle_only=True))
+    return out
+
+
 def gen_stale_loss(r, n):
     """Abandoned connections whose connection_lost arrives late (send buffer still draining)."""
     out = []
@@ -308,6 +339,8 @@ def oracle_c10(sc, tr):
                 bad.append(("waiter-unbounded", f"waiter {w} completed {t - ensure_at[w]} ticks after it started"))
         if e[1] == "stalled":
             bad.append(("stalled", "the scenario could not run to its end (deadlock)"))
+        if e[1] == "livelock":
+            bad.append(("busy-loop", f"the event loop spins at tick {e[0]} without ever waiting (no back-off)"))
     for t, n in dial_ticks.items():
         if n > nh_max * (nh_max + 1):
             bad.append(("busy-loop", f"{n} dials at tick {t} with {nh_max} hosts"))
@@ -334,6 +367,14 @@ def oracle_c10(sc, tr):
         started = any(c[1] in ("ensure", "soon", "zeroconf") for c in sc["controls"])
         if started and not e[4] and e[5] == 0 and not last_auth:
             bad.append(("retries-stopped", f"disconnected at the end (tick {e[0]}) with no connector running"))
+        # ... and that connector keeps attempting: the time since the last attempt is bounded like every other gap
+        if started and not e[4] and e[5] >= 1 and dts and not any(x >= dts[-1] for x in ext):
+            lastd = [x for x in tr if x[1] == "dial" and x[0] == dts[-1]]
+            failing = all(x[3] in ("refused", "hang") for x in lastd)
+            bound = SIXTY_S + TEN_S * max(1, sum(1 for x in lastd if x[3] == "hang")) + (0 if failing else 10 * TEN_S)
+            if e[0] - dts[-1] > bound:
+                bad.append(("retries-stopped", f"connector alive but no attempt since tick {dts[-1]} "
+                            f"({(e[0] - dts[-1]) / 4096:.1f} s before the end at {e[0]})"))
     # no host excluded forever: over a long failing run every advertised host is dialled again
     if sc["end"] > 20 * SIXTY_S and not closes and end and not end[-1][4]:
         zs = [c for c in sc["controls"] if c[1] == "zeroconf"]
@@ -400,6 +441,8 @@ def run_core(ctx, pid, oracle, gens, corr_name):
         mtrace = c10sim.canon([tuple(e) for e in mtrace])
         orc = oracle(sc, itrace)
         scj = {k: v for k, v in sc.items() if k != "tag"}
+        if sc.get("oracle_only"):
+            tie = True
         if ctx.get("replay"):
             for e in itrace:
                 print("  impl", e)
